@@ -673,12 +673,11 @@ Proof.
           { unfold isNecessary, link_rec. simpl. destruct (children (meta_ px)); simpl; apply orb_true_r. }
           unfold bn_parent. destruct (isNecessary px) eqn:Hnp.
           * constructor; simpl; auto; try congruence.
-            -- rewrite <- Hn. exact Hnn.
-            -- rewrite Hvp. discriminate.
+            change (isVar (link_rec px n)) with (isVar px). rewrite Hvp. discriminate.
           * unfold bn_leaf. change (isVar (link_rec px n)) with (isVar px). rewrite Hvp. cbn [negb andb].
             constructor; simpl; auto; try discriminate; try lia.
             -- intros _ _. unfold fresh. simpl. rewrite Hkp. exact I.
-            -- rewrite Hvp. discriminate.
+            -- change (isVar (r_in (link_rec px n))) with (isVar px). rewrite Hvp. discriminate.
       - rewrite lookup_put_other by congruence. exact Hx.
       - reflexivity.
       - destruct Hix as [Hz Hh He Hf Hn Hl' Hkk]. unfold bn_snap.
